@@ -403,6 +403,116 @@ def interp_sites(db, rep, prog):
     return out
 
 
+class ForwardHooks(libtab.SAConc, QHooks):
+    """mailforward(recips) on a concrete recipient list: what is handed to the queue, and how its verdict ends the delivery"""
+    def __init__(self, verdict, read_error=False):
+        self.verdict, self.read_error = verdict, read_error
+        self.ends = []
+
+    def tracked_global(self, path):
+        return True
+
+    def precise_arith(self, path):
+        return True
+
+    def ev(self, E, e):
+        E.set('$ev', fs(tuple(libtab._one(E.get('$ev')) or ()) + (e,)))
+
+    def _ok0(self, E, x, args):
+        return [Outcome(ret=fs(0))]
+
+    def _n(self, E, x, args):
+        return [Outcome(ret=TOP)]
+
+    prim_seek_begin = prim_qmail_open = _ok0
+    prim_substdio_fdbuf = _n
+
+    def prim_qmail_qp(self, E, x, args):
+        return [Outcome(ret=fs(4711))]
+
+    def prim_getln(self, E, x, args):
+        k = libtab._one(E.get('$k')) or 0
+        mp = libtab._one(args[2])
+        lines = [b'Subject: x\n', b'\n', b'body']
+        if self.read_error and k == 1:
+            return [Outcome(ret=fs(-1), sets={'$k': fs(k + 1)}, log='reading the message fails')]
+        o = self._put(E, x, args[1:2], lines[k], False)[0]
+        return [Outcome(ret=fs(0), sets=dict(o.sets, **{mp[1]: fs(1 if lines[k].endswith(b'\n') else 0), '$k': fs(k + 1)}))]
+
+    def prim_qmail_put(self, E, x, args):
+        n = libtab._one(args[2])
+        self.ev(E, ('put', self.mem(E, libtab._one(args[1]), n) if isinstance(n, int) and 0 <= n < 200 else None))
+        return [Outcome(ret=TOP)]
+
+    def prim_qmail_puts(self, E, x, args):
+        self.ev(E, ('put', self.cstring(E, libtab._one(args[1]))))
+        return [Outcome(ret=TOP)]
+
+    def prim_qmail_fail(self, E, x, args):
+        self.ev(E, ('fail',))
+        return [Outcome(ret=TOP)]
+
+    def prim_qmail_from(self, E, x, args):
+        self.ev(E, ('from', self.cstring(E, libtab._one(args[1]))))
+        return [Outcome(ret=TOP)]
+
+    def prim_qmail_to(self, E, x, args):
+        self.ev(E, ('to', self.cstring(E, libtab._one(args[1]))))
+        return [Outcome(ret=TOP)]
+
+    def prim_qmail_close(self, E, x, args):
+        self.ev(E, ('close',))
+        return [Outcome(ret=fs(('str', self.verdict)))]
+
+    def _die(self, E, x, args):
+        self.ends.append((('die', libtab._one(args[0])), tuple(libtab._one(E.get('$ev')) or ()), E.trace.list()))
+        return 'noreturn'
+
+    prim_strerr_die = prim_strerr_die3x = prim_strerr_die1x = _die
+
+    def _temp(self, E, x, args):
+        return 'noreturn'
+
+    prim_temp_rewind = prim_temp_fork = prim_temp_nomem = _temp
+
+    def on_return(self, E, fn, val):
+        if fn.name == 'mailforward':
+            self.ends.append((('return',), tuple(libtab._one(E.get('$ev')) or ()), E.trace.list()))
+
+
+def forward_sites(db, rep, prog):
+    fn = prog.fn('mailforward', 'qmail-local.c')
+    bad = {}
+    for verdict, rerr, want_end in (('', False, ('return',)), ('Dno such user', False, ('die', 100)), ('Ztry later', False, ('die', 111)), ('Zqq read error', True, ('die', 111))):
+        H = ForwardHooks(verdict, rerr)
+        e = Engine(db, prog, H, max_states=60000)
+        st = {'%s::%s' % (e.frame_id(fn), fn.params[0]): fs(('&', 'RECIPS[0]')), 'RECIPS[0]': fs(('&', 'R0[0]')), 'RECIPS[1]': fs(('&', 'R1[0]')), 'RECIPS[2]': fs(0),
+              'G:dtline.s': fs(('&', 'G:dtline.s[0]')), 'G:dtline.len': fs(3), 'G:ueo.s': fs(('&', 'G:ueo.s[0]'))}
+        st.update(libtab.conc_string_cells('R0', b'a@b'))
+        st.update(libtab.conc_string_cells('R1', b'c@d'))
+        st.update(libtab.conc_string_cells('G:dtline.s', b'DT\n', terminate=False))
+        st.update(libtab.conc_string_cells('G:ueo.s', b'owner@x'))
+        e.run(fn, st)
+        rep.count_states(e.states, e.transitions)
+        if len(H.ends) != 1:
+            raise AnalysisBroken('mailforward: %d ends for the queue verdict %r' % (len(H.ends), verdict))
+        end, ev, tr = H.ends[0]
+        what = 'queue verdict %r%s: ' % (verdict, ', reading the message fails' if rerr else '')
+        if end != want_end:
+            key = 'forward-success-only-on-empty-qmail_close' if (end == ('return',)) != (want_end == ('return',)) else 'forward-failure:D->100,else->111'
+            bad.setdefault(key, (what + 'mailforward() ends with %s; documented %s' % (end, want_end), tr))
+        tos = [e_[1] for e_ in ev if e_[0] == 'to']
+        frm = [e_[1] for e_ in ev if e_[0] == 'from']
+        puts = [e_[1] for e_ in ev if e_[0] == 'put']
+        want_puts = [b'DT\n', b'Subject: x\n'] + ([] if rerr else [b'\n', b'body'])
+        if tos != [b'a@b', b'c@d'] or frm != [b'owner@x'] or puts != want_puts or (rerr and ('fail',) not in ev):
+            bad.setdefault('forward:message=Delivered-To-line+copy,envelope=new-sender+every-forward-address',
+                           (what + 'the queue is handed the pieces %s, the sender %s, the recipients %s%s; documented %s, [owner@x], [a@b, c@d]%s' %
+                            (puts, frm, tos, '' if not rerr else (', qmail_fail %s' % ('called' if ('fail',) in ev else 'NOT called')), want_puts, ' and qmail_fail after the read error' if rerr else ''), tr))
+    return {k: (k not in bad, 'qmail-local.c:mailforward', bad[k][0] if k in bad else '4 verdict scenarios', bad[k][1] if k in bad else [])
+            for k in ('forward-failure:D->100,else->111', 'forward-success-only-on-empty-qmail_close', 'forward:message=Delivered-To-line+copy,envelope=new-sender+every-forward-address')}
+
+
 def run(ctx):
     db, rep = ctx.db, ctx.report
     prog = db.program('qmail-local')
@@ -601,21 +711,8 @@ def run(ctx):
     r5 = rep.rule('C13.5-forward-last', 'R-ORDER', 'mailforward runs once after the instruction loop, only with recipients and when delivering; a D result exits 100, anything else 111')
     for k_ in ('mailforward-once-after-all-instructions-with-every-forward-address', '-n-delivers-nothing'):
         r5.check(its[k_][0], k_, its[k_][1], its[k_][2], its[k_][3])
-    mfw = prog.fn('mailforward', 'qmail-local.c')
-    die = mfw.calls(DIE)
-    okd = False
-    if die:
-        a = die[0].args[0].strip()
-        if a.k == 'cond' and a.args[1].const == 100 and a.args[2].const == 111 and "'D'" in a.args[0].src():
-            okd = True
-    r5.check(okd, 'forward-failure:D->100,else->111', mfw.unit + ':mailforward', '')
-    rets = [x for x in mfw.all_x() if x.k == 'ret']
-    qcl = mfw.calls('qmail_close')
-    qv_ = None
-    for x_ in mfw.all_x():
-        if x_.k == 'asg' and qcl and x_.args[1].strip().id == qcl[0].id:
-            qv_ = x_.args[0].var
-    r5.check(qv_ is not None and any(any(branch_zero_test(c, t, lambda v: v.strip().k == 'un' and v.strip().op == '*' and v.strip().args[0].var == qv_) == 'zero' for c, t in mfw.guards(x) or []) for x in rets), 'forward-success-only-on-empty-qmail_close', mfw.unit + ':mailforward', '')
+    for inst_, v_ in sorted(forward_sites(db, rep, prog).items()):
+        r5.check(v_[0], inst_, v_[1], v_[2], v_[3])
     r5.expect_min(3)
 
     # ---------------------------------------------------------------- 6/7/8
